@@ -21,7 +21,11 @@ def nm(n):
     return 'TON' if n == TON else f'N{n}'
 
 
-def ty_st(t):
+STR_FORMS = ['STRING', 'STRING[10]', 'WSTRING', 'WSTRING[5]', 'STRING[1]']
+
+
+def ty_st(t, key=0):
+    if t == 's': return STR_FORMS[key % len(STR_FORMS)]
     return {'b': 'BOOL', 'i': 'INT'}.get(t) if isinstance(t, str) else nm(t[1])
 
 
@@ -51,8 +55,12 @@ def print_vars(vs, indent='  '):
             if v['init'] is not None:
                 if v['ty'] == 'b': init = ' := ' + ('TRUE' if v['init'] else 'FALSE')
                 elif v['ty'] == 'i': init = f" := {v['init']}"
+                elif v['ty'] == 's':
+                    # the literal kind follows the type (STRING: single quotes, WSTRING: double quotes)
+                    q = '"' if ty_st('s', v.get('sform', 0)).startswith('W') else "'"
+                    init = f" := {q}{['log', '', 'a b', 'x'][v['init'] % 4]}{q}"
                 else: init = f" := {nm(v['init'])}"
-            out.append(f"{indent}  {nm(v['name'])} : {ty_st(v['ty'])}{init};\n")
+            out.append(f"{indent}  {nm(v['name'])} : {ty_st(v['ty'], v.get('sform', 0))}{init};\n")
         out.append(f'{indent}END_VAR\n')
         i = j
     return ''.join(out)
@@ -210,6 +218,13 @@ def gen_valid(rng, size=None):
             v = var(ns.new(), 'v', 'i', rng.randint(0, 9), True); vs.append(v)
         elif globals_ and not gconst and kind == 'U' and rng.random() < 0.7:
             vs.append(var(globals_[0]['name'], 'v', 'i', rng.randint(0, 9), True))
+        # character string variables: plain, initialised, and constant with an initial value
+        # (the parser has no length form for string variables of a FUNCTION)
+        sforms = [0, 2] if kind == 'U' else [0, 1, 2, 3, 4]
+        if rng.random() < 0.5:
+            vs.append(dict(var(ns.new(), 'v', 's', rng.choice([None, rng.randint(0, 3)])), sform=rng.choice(sforms)))
+        if rng.random() < 0.4:
+            vs.append(dict(var(ns.new(), 'v', 's', rng.randint(0, 3), True), sform=rng.choice(sforms)))
         # enumeration typed locals (always initialised: see Analyze.lean stage 3)
         if rng.random() < 0.6:
             t, vals = rng.choice(enums)
